@@ -18,16 +18,16 @@ import (
 )
 
 type checkCtx struct {
-	V      *Verifier
-	prop   string
-	tier   string
-	seed   int
-	obs    []*Obligation
-	funcs  map[string]bool
-	notes  []string
-	bounded []map[string]string
-	cfg    *solveCfg
-	t0     time.Time
+	V        *Verifier
+	prop     string
+	tier     string
+	seed     int
+	obs      []*Obligation
+	funcs    map[string]bool
+	notes    []string
+	bounded  []map[string]string
+	cfg      *solveCfg
+	t0       time.Time
 	encCache map[string]*EncInfo
 }
 
@@ -799,16 +799,16 @@ func (c *checkCtx) writeReplay(o *Obligation, path string) bool {
 	}
 	found, rep := c.replay(o)
 	m := map[string]interface{}{
-		"property":            c.prop,
-		"obligation":          o.Name,
-		"function":            o.Func,
-		"kind":                o.Kind,
+		"property":             c.prop,
+		"obligation":           o.Name,
+		"function":             o.Func,
+		"kind":                 o.Kind,
 		"what_is_being_proved": o.Detail,
-		"status":              o.Status,
-		"solver_output":       o.Output,
-		"smt":                 body,
-		"failing_input_found": found,
-		"replay":              rep,
+		"status":               o.Status,
+		"solver_output":        o.Output,
+		"smt":                  body,
+		"failing_input_found":  found,
+		"replay":               rep,
 	}
 	b, _ := json.MarshalIndent(m, "", " ")
 	os.WriteFile(path, b, 0o644)
@@ -904,7 +904,7 @@ func writeLoadFailure(vdir, prop, tier string, err error) int {
 	os.WriteFile(path, b, 0o644)
 	ev := map[string]interface{}{"property_id": prop, "tier": tier, "seed": seedFromEnv(), "level": "proof",
 		"coverage": map[string]interface{}{"obligations": 1, "discharged": 0, "checker_cmd": "gocv", "trusted_base": []string{}, "explanation": "the repository did not load: " + err.Error()},
-		"wall_s": 0.0, "violations": 1}
+		"wall_s":   0.0, "violations": 1}
 	eb, _ := json.MarshalIndent(ev, "", " ")
 	os.WriteFile(filepath.Join(vdir, "evidence", prop+".json"), eb, 0o644)
 	fmt.Printf("VIOLATION property=%s replay=%s obligation=repository/loads-and-type-checks no-failing-input-found\n", prop, path)
